@@ -25,6 +25,7 @@ type Env struct {
 	st    *State
 	old   *State
 	names map[string]cval
+	addrs map[string]cval // named locals living in memory cells: their addresses (for addr(x))
 	bound map[string]cval
 	pkg   *types.Package
 	where string
@@ -496,6 +497,10 @@ func (e *Env) pkgOfType(t types.Type) *types.Package {
 func (e *Env) addrOf(x *Expr) (Term, types.Type, bool) {
 	vc := e.vc
 	switch x.Op {
+	case "id":
+		if a, ok := e.addrs[x.Name]; ok {
+			return a.t, a.ct.T, true
+		}
 	case "field":
 		base := e.eval(x.X)
 		if base.ct.T == nil {
